@@ -40,7 +40,8 @@ function plan (ctx, o) {
   const per = o.catalogPerShard || 120
   for (const c of chunk(rng.shuffle(items), per)) shards.push({ kind: 'catalog', items: c })
   if (o.zoo !== false) for (const eol of EOLS) shards.push({ kind: 'zoo', eol })
-  const nRandom = ctx.tier === 'thorough' ? (o.thoroughRandom || 20000) : (o.quickRandom || 600)
+  let nRandom = ctx.tier === 'thorough' ? (o.thoroughRandom || 20000) : (o.quickRandom || 600)
+  if (process.env.VERIF_ONLY_FORMS || process.env.VERIF_ONLY_PLACEMENTS) nRandom = 100 // debugging aid: catalogue subset only
   const perR = o.randomPerShard || 100
   for (let k = 0; k < Math.ceil(nRandom / perR); k++) shards.push({ kind: 'random', count: Math.min(perR, nRandom - k * perR), stream: k, cfgNames })
   return shards
